@@ -6,7 +6,11 @@
 package crashdb
 
 import (
+	"bytes"
 	"fmt"
+	"runtime"
+	"strconv"
+	"sync"
 
 	dbm "github.com/tendermint/tm-db"
 )
@@ -22,6 +26,19 @@ type DB struct {
 	armed  int      // 0 = never crash
 	Log    []string // kind of every write (for evidence)
 	dead   bool
+	owner  uint64 // goroutine that armed the database: only its writes are numbered
+	mu     sync.Mutex
+}
+
+func goid() uint64 {
+	var buf [64]byte
+	n := runtime.Stack(buf[:], false)
+	f := bytes.Fields(buf[:n])
+	if len(f) < 2 {
+		return 0
+	}
+	id, _ := strconv.ParseUint(string(f[1]), 10, 64)
+	return id
 }
 
 func New(image dbm.DB) *DB {
@@ -40,16 +57,29 @@ func New(image dbm.DB) *DB {
 }
 
 // Arm makes the k-th write from now crash (k >= 1); 0 disarms.
-func (d *DB) Arm(k int) { d.armed = k; d.writes = 0; d.Log = nil }
+func (d *DB) Arm(k int) { d.armed = k; d.writes = 0; d.Log = nil; d.owner = goid() }
 
 func (d *DB) Writes() int { return d.writes }
 
 // Image is the surviving database content.
 func (d *DB) Image() *dbm.MemDB { return d.inner }
 
-func (d *DB) before(kind string, key []byte) {
+// before returns false when the write must be dropped: the process is dead and the caller is a background
+// goroutine of the node (e.g. the old-state cleanup started by the fast-sync switch), which simply never gets
+// to write. Background writes before the crash are applied but not numbered, so that crash points are a
+// function of the operation alone.
+func (d *DB) before(kind string, key []byte) bool {
+	d.mu.Lock()
+	defer d.mu.Unlock()
+	mine := d.owner == 0 || goid() == d.owner
 	if d.dead {
-		panic(Crash{d.writes})
+		if mine {
+			panic(Crash{d.writes})
+		}
+		return false
+	}
+	if !mine {
+		return true
 	}
 	d.writes++
 	tag := kind
@@ -65,6 +95,7 @@ func (d *DB) before(kind string, key []byte) {
 		d.dead = true // nothing is written after the crash point
 		panic(Crash{d.writes})
 	}
+	return true
 }
 
 func (d *DB) Get(key []byte) ([]byte, error) { return d.inner.Get(key) }
@@ -109,7 +140,9 @@ func (b *batch) write(kind string) error {
 	if len(b.ops) == 0 {
 		return nil
 	}
-	b.db.before(fmt.Sprintf("%s[%d]", kind, len(b.ops)), b.ops[0].k)
+	if !b.db.before(fmt.Sprintf("%s[%d]", kind, len(b.ops)), b.ops[0].k) {
+		return nil
+	}
 	for _, o := range b.ops {
 		if o.del {
 			b.db.inner.Delete(o.k)
